@@ -1,5 +1,6 @@
 """C10 — a refused request changes nothing (failure atomicity, engine E5)."""
 from engine import rulelib as R
+from engine import atoms
 from engine import effects
 from engine.rulelib import fnview
 
@@ -142,16 +143,20 @@ def r102(ctx):
     ctx.rule("R10.2", "Handler::with_persist reaches its Err return only through the `muts.is_empty()` test")
     b = ctx.prog.fn("vls_protocol_signer::handler::Handler::with_persist")
     fv = fnview(ctx, b)
-    tests = []
-    for bi, c in b.calls():
-        nm = c.callee.name if c.callee else ""
-        if nm.endswith("::is_empty"):
-            tests.append((bi, c))
-    ctx.ob("R10.2", len(tests) >= 1, f"{b.name}/is-empty-test", "with_persist no longer tests for stranded mutations",
-           where=f"{b.file}:{b.line}")
+    # the "no stranded mutations" test, however it is spelled (`muts.is_empty()`, `muts.len() == 0`, `!(muts.len() > 0)`):
+    # the switch edges on which len(muts) == 0 is known
+    nv = fv.named()
+    want = atoms.parse_atom("len(muts) == 0")
+    atoms._require_named_symbols(nv, [want])
     empty_edges = set()
-    for bi, c in tests:
-        empty_edges |= fv.result_edges(bi, c, "ok")
+    for sb in sorted(fv.live_blocks()):
+        if b.term(sb).kind != "switch":
+            continue
+        for tg, at in atoms.edge_atoms(nv, sb):
+            if at is not None and atoms.entails(at, want):
+                empty_edges.add((sb, tg))
+    ctx.ob("R10.2", len(empty_edges) >= 1, f"{b.name}/is-empty-test", "with_persist no longer tests for stranded mutations",
+           where=f"{b.file}:{b.line}")
     enter_err = set()
     for bi, c in b.calls():
         nm = (c.decl.name if c.decl else "") + (c.callee.name if c.callee else "")
